@@ -426,7 +426,6 @@ func isNilIdent(e ast.Expr) bool {
 	return ok && id.Name == "nil"
 }
 
-
 // isNilableZero: a zero value written out (nil, "", 0, false, T{}, a zero-valued variable is not recognised).
 func isNilableZero(info *types.Info, e ast.Expr) bool {
 	switch x := ast.Unparen(e).(type) {
